@@ -1690,6 +1690,13 @@ func (c *Client) roundTrip(r *Request) (resp *Response, err error) {
 		host = r.URL.Host
 	}
 
+	// cookies that cannot be sent as given fail the call (AddCookie would alter them)
+	for _, cookie := range r.Cookies {
+		if resp.Err = checkRequestCookie(cookie); resp.Err != nil {
+			return
+		}
+	}
+
 	// setup header
 	contentLength := int64(len(r.Body))
 
